@@ -87,6 +87,23 @@ def gen_cases(rng, tier):
         ren = {0: g.P(bps[0]) if bps else g.C('u8'), 1: g.P(bps[-1]) if bps else g.C('X'), 2: g.Lit('3')}
         cases.append(('subst', g.show(a), g.show(b), g.show(g.subst(g.rand_type(rng, 2, 2, exprs=False), ren)),
                       g.show(g.subst(rng.choice(TRAITS)(), ren))))
+    # systematic: k type parameters (indices 0,1,4,5), every assignment of values from a small
+    # pool (equal values at adjacent AND non-adjacent positions, identities in between)
+    import itertools
+    TP = [0, 1, 4, 5]
+    pool = [g.C('Vec', g.C('X')), g.C('i32'), g.C('Vec', g.P(0)), None]      # None = identity
+    for k in (2, 3, 4):
+        a = g.Tup(*[g.P(i) for i in TP[:k]])
+        for assign in itertools.product(range(len(pool)), repeat=k):
+            theta = {TP[i]: pool[v] for i, v in enumerate(assign) if pool[v] is not None}
+            b = g.subst(a, theta)
+            used = [pool[v] for v in assign if pool[v] is not None]
+            if not used:
+                continue
+            v0 = used[0]
+            for bounded, trait in ((v0, g.C('D')), (g.C('Option', v0), g.C('D', used[-1])),
+                                   (g.Tup(v0, used[-1]), g.C('m::D', g.GAssoc('G', v0)))):
+                cases.append(('subst', g.show(a), g.show(b), g.show(bounded), g.show(trait)))
     seen, out = set(), []
     for c in cases:
         if c not in seen:
